@@ -593,7 +593,9 @@ def replay_cadence(model):
     cad = {n: gi("d_" + n) for n in STREAMS}
     d_data, d_xyz = gi("d_data"), gi("d_xyz")
     k1 = gi("k#1") + 1
-    steps = max(k1, 1)
+    # long enough for every enabled stream to come due at least twice after step 0 (a single row cannot tell a written
+    # label 0 from an unwritten filler row, which also reads 0)
+    steps = max(k1, 1, 2 * max([0] + [v for v in list(cad.values()) + [d_data] if v > 0]))
     reduced = False
     if steps > 40 or any(v > 40 for v in list(cad.values()) + [d_data, d_xyz]):
         # the solver's witness is too long to run with a real SCF per step: replay a reduced witness of the same
